@@ -528,7 +528,7 @@ def fixed_length_slope(
     # loop over outlet cell indices
     for i in range(idxs_out.size):
         idx0 = idxs_out[i]
-        if idx0 == mv:
+        if idx0 == mv or idxs_ds[idx0] == mv:  # no outlet or outside the network
             continue
         # move downstream until half length distance
         x0 = distnc[idx0] - length / 2
